@@ -86,9 +86,19 @@ pub fn parse_src(src: &str) -> Result<incan_syntax::ast::Program, Value> {
         .map_err(|errs| json!({"stage":"parse","errs": errs.iter().map(project::diag).collect::<Vec<_>>()}))
 }
 
+fn digest_str(s: &str) -> String {
+    use std::hash::{Hash, Hasher};
+    let mut h = std::collections::hash_map::DefaultHasher::new();
+    s.hash(&mut h);
+    format!("{:016x}", h.finish())
+}
+
 fn op_parse(req: &Value) -> Value {
     let src = src_of(req);
+    let digest = req.get("digest").and_then(|x| x.as_bool()).unwrap_or(false);
     match guarded_timeout(LIMIT_MS, move || match parse_src(&src) {
+        Ok(p) if digest => json!({"ok": true, "h": digest_str(&project::program(&p).to_string()),
+                                  "ndecls": p.declarations.len()}),
         Ok(p) => json!({"ok": true, "ast": project::program(&p)}),
         Err(e) => json!({"ok": false, "err": e}),
     }) {
